@@ -37,7 +37,7 @@ THEOREMS = ['CpProofs.C16.' + t for t in (
     'invalid_spec_ignored', 'honoured_iff', 'suffix_zero', 'suffix_on_empty', 'empty_entity_unsat',
     # ranges: serving
     'readSlice_eq', 'http10_whole', 'unknown_length_whole', 'serve_ignored', 'serve_unsat', 'serve_single',
-    'serve_multi', 'ranges_conform', 'parseDec_dec', 'multipart_decodes', 'serve_multi_wire',
+    'serve_multi', 'ranges_conform', 'slice_getElem?', 'parseDec_dec', 'multipart_decodes', 'serve_multi_wire',
     # validators
     'validateSince_table', 'validateSince_no_lastmod', 'validateSince_guard', 'validateEtags_table',
     'validateEtags_non2xx', 'absent_headers_pass', 'star_semantics', 'weak_is_not_equal', 'no_etag',
@@ -66,8 +66,10 @@ LEVEL_TEXT = ('Proved in Lean over the model of the repaired code, without size 
               'entity on HTTP/1.0 / unknown length / ignored header; validate_since / validate_etags equal the equality-'
               'comparison decision table, the whole request (handler exceptions, tools.etags, finalize, HEAD) equals a '
               'flat table, 304/412 exactly when a header dictates it, the full or ranged entity otherwise, 304 only for '
-              'GET/HEAD and never with body / Content-Range / Content-Length. Partial: md5, HTTPDate(mtime), the '
-              'multipart framing text and HeaderMap.elements (params, sorting) are inputs or correspondence-only.')
+              'GET/HEAD and never with body / Content-Range / Content-Length; the multipart body bytes decode back to '
+              'exactly the parts; the entity-tag list split returns exactly the listed tags. Partial: md5, '
+              'HTTPDate(mtime), the boundary text and HeaderMap.elements with parameters / sorting are inputs or '
+              'correspondence-only; handlers that themselves answer 304/412 are correspondence-only.')
 LEVEL_NOTE = ('Trusted: Lean kernel (axioms propext, Classical.choice, Quot.sound only); the hand models CpModel/Ranges.lean '
               'and Validators.lean as validated on every run by the differential streams (get_ranges directly, '
               'header_elements, whole in-process WSGI requests over five resource kinds); CPython semantics of '
@@ -1048,7 +1050,7 @@ class _SubCtx:
     """Collects what a worker would have reported to ctx; merged by the parent."""
 
     def __init__(self):
-        self.cases, self.hist, self.fails, self.dis, self.ncomp = [], {}, [], [], 0
+        self.nevals, self.keys, self.hist, self.fails, self.dis, self.ncomp = 0, set(), {}, [], [], 0
         self.driver = common.Driver(DRIVER)
 
     def model(self, lines):
@@ -1058,7 +1060,10 @@ class _SubCtx:
         return None
 
     def case(self, case, nontrivial=True, key=None):
-        self.cases.append((None, nontrivial, hashlib.sha1(str(key).encode('utf-8', 'replace')).hexdigest()[:20]))
+        self.nevals += 1
+        if nontrivial:
+            # same digest as common.Ctx.case, so the parent can count distinct cases across workers
+            self.keys.add(hashlib.sha1(str(key).encode('utf-8', 'replace')).digest()[:10])
 
     def count(self, k, n=1):
         self.hist[k] = self.hist.get(k, 0) + n
@@ -1073,13 +1078,14 @@ class _SubCtx:
         self.dis.append((case, impl, model, what))
 
     def dump(self):
-        return {'cases': self.cases, 'hist': self.hist, 'fails': self.fails[:50], 'dis': self.dis[:50],
+        return {'nevals': self.nevals, 'keys': b''.join(sorted(self.keys)), 'hist': self.hist, 'fails': self.fails[:50], 'dis': self.dis[:50],
                 'ncomp': self.ncomp, 'lines': self.driver.lines}
 
 
 def merge(ctx, d):
-    for _, nontrivial, key in d['cases']:
-        ctx.case({'merged': key}, nontrivial=nontrivial, key=key)
+    ctx.evaluations += d['nevals']
+    ks = d['keys']
+    ctx._nontrivial.update(ks[i:i + 10] for i in range(0, len(ks), 10))
     for k, v in d['hist'].items():
         ctx.count(k, v)
     for case, what, sig in d['fails']:
@@ -1135,18 +1141,18 @@ def run(ctx):
         if not ctx.quick():
             jobs = []
             base = ctx.rng.getrandbits(48)
-            for i in range(32):
-                jobs.append((base + i, 'unit', 0, 31250))
-            for i in range(32):
-                jobs.append((base + 100 + i, 'req', 0, 3200))
+            for i in range(48):
+                jobs.append((base + i, 'unit', 0, 50000))
+            for i in range(48):
+                jobs.append((base + 100 + i, 'req', 0, 4000))
             for lo in range(0, 41, 3):
                 jobs.append((0, 'exh', lo, min(lo + 3, 41)))
             for d in common.parallel_map(_worker, jobs):
                 merge(ctx, d)
             mark('thorough_parallel')
             ctx.extra['exhaustive_small_scope'] = 'lengths 0..40 x %d small-grammar headers' % len(hs)
-            ctx.extra['thorough_unit_strings'] = 32 * 31250
-            ctx.extra['thorough_requests'] = 32 * 3200
+            ctx.extra['thorough_unit_strings'] = 48 * 50000
+            ctx.extra['thorough_requests'] = 48 * 4000
     finally:
         _Env.cleanup()
 
